@@ -2,6 +2,7 @@ package psshd
 
 import (
 	"context"
+	"encoding/json"
 	"errors"
 	"fmt"
 	"strconv"
@@ -148,6 +149,27 @@ func oneC05obs(t *testing.T, x Exp, pid string, order string, out *c05obs) (msg 
 			case r := <-got:
 				if x.Login {
 					checkLogin(r)
+					// the correlator keeps the login for the whole session: after the same processor has handled
+					// other lines (other keys, other certificates, an invalid certificate) the event it carries is
+					// still, byte for byte, the event that was written
+					written, _ := json.Marshal(rec.copies[0])
+					for i, l := range []string{
+						"Accepted publickey for zed from 10.9.9.9 port 999 ssh2: RSA-CERT SHA256:ZZZZZZZZZZZZZZZZZZZZZZZZZZZZZZZZZZZZZZZZZZZ ID another-key-id-that-is-rather-long (serial 987654321) CA RSA SHA256:YYYYYYYYYYYYYYYYYYYYYYYYYYYYYYYYYYYYYYYYYYY",
+						"Certificate invalid: name is not a listed principal",
+						"Accepted publickey for zed from 10.9.9.9 port 999 ssh2: ED25519 SHA256:XXXXXXXXXXXXXXXXXXXXXXXXXXXXXXXXXXXXXXXXXXX",
+					} {
+						_ = proc.ProcessSshdLogEntry(ctx, sshd.SshdLogEntry{PID: strconv.Itoa(900 + i), Message: l})
+						synctest.Wait()
+					}
+					held, err := json.Marshal(r.l.Source)
+					if err != nil {
+						fail("the event carried by the forwarded login can no longer be encoded after later lines were processed: %v", err)
+					} else if string(held) != string(written) {
+						fail("after later lines were processed the forwarded login carries\n%s\nbut the event written for it was\n%s", held, written)
+					}
+					for len(got) > 0 {
+						<-got
+					}
 				} else {
 					fail("a login was forwarded for a line that reports no accepted authentication")
 				}
